@@ -64,6 +64,16 @@ func histories(r *Run) {
 	if t.Bool(1, 2, "random-world") {
 		par1Set := t.Bool(1, 3, "par1")
 		w = GenWorld(r, GenOpts{Par1: par1Set, MaxFiles: 4, SmallOnly: true, MaxR: 4})
+		if t.Bool(1, 10, "file-at-16k") && (par1Set || w.S >= 16) {
+			// one file right at the 16 KiB boundary of the file hashes
+			data := expandContent(ckRandom, t.Draw64(0, "k16-seed"), 16383+t.Draw(3, "k16-d"), 4)
+			if !par1Set {
+				w.N += (len(data)+w.S-1)/w.S - (len(w.Files[0].Data)+w.S-1)/w.S
+			}
+			w.Files[0].Data = data
+			w.Disk.Put(w.Path(0), data)
+			r.Probe("file-at-16KiB")
+		}
 	} else {
 		c13Once.Do(c13Build)
 		worldID = t.Draw(len(c13Sets), "fixed-world")
@@ -108,7 +118,7 @@ func histories(r *Run) {
 		switch op {
 		case 0:
 			name = "damage"
-			w.DamageData(r, []string{"delete", "flip", "truncate", "prepend", "swap", "append-zeros", "overwrite", "remove-bytes", "empty", "copy-over"})
+			w.DamageData(r, []string{"delete", "flip", "truncate", "prepend", "swap", "append-zeros", "overwrite", "remove-bytes", "empty", "copy-over", "append-garbage", "insert"})
 			if lastRepairOK {
 				r.Probe("damage-after-repair")
 			}
